@@ -187,9 +187,9 @@ type session struct {
 	socket                         socket.Socket
 	closeNotifyCh                  chan struct{} // closeNotifyCh is the channel returned by CloseNotify.
 	writeLock                      sync.Mutex
-	graceCtxWaitGroup              sync.WaitGroup
+	graceCtxWaitGroup              graceCounter
 	graceCtxMutex                  sync.Mutex
-	graceCallCmdWaitGroup          sync.WaitGroup
+	graceCallCmdWaitGroup          graceCounter
 	sessionAge                     time.Duration
 	contextAge                     time.Duration
 	sessionAgeLock                 sync.RWMutex
@@ -295,6 +295,40 @@ func (s *session) Health() bool {
 		return true
 	}
 	return false
+}
+
+// graceCounter counts the running handler contexts or launched calls of a
+// session. Unlike sync.WaitGroup it may be incremented while another goroutine
+// is waiting: a message can arrive, or a call can be launched, while the
+// session is being closed, which sync.WaitGroup reports as misuse by panicking.
+type graceCounter struct {
+	mu   sync.Mutex
+	cond *sync.Cond
+	n    int
+}
+
+func (g *graceCounter) Add(delta int) {
+	g.mu.Lock()
+	g.n += delta
+	if g.n <= 0 && g.cond != nil {
+		g.cond.Broadcast()
+	}
+	g.mu.Unlock()
+}
+
+func (g *graceCounter) Done() {
+	g.Add(-1)
+}
+
+func (g *graceCounter) Wait() {
+	g.mu.Lock()
+	if g.cond == nil {
+		g.cond = sync.NewCond(&g.mu)
+	}
+	for g.n > 0 {
+		g.cond.Wait()
+	}
+	g.mu.Unlock()
 }
 
 func (s *session) graceCtxWait() {
